@@ -80,9 +80,112 @@ def r10_1(prog):
     return r
 
 
+RES_RE = re.compile(r"^asn1f_(lookup_symbol|find_terminal|class_access|lookup_module|find_ancestor)")
+
+
+def mark_guard(f, site_block, site_idx, e):
+    """The recursive call is bracketed by the TM_RECURSION mark: a set of `X->_mark |= TM_RECURSION` dominates it, and
+    assuming the mark is already set (every test of `_mark & TM_RECURSION` taking its set edge) the call is unreachable."""
+    def is_mark_test(t):
+        return isinstance(t, list) and t and t[0] == "bin" and t[1] == "&" and \
+            any(n[0] == "member" and n[2] == "_mark" for n in walk(t)) and any(n[0] == "enum" and n[1] == "TM_RECURSION" for n in walk(t))
+    dom = f.dominators()
+    sets = False
+    for b, i, x in f.events("assign"):
+        if x.get("field") == "_mark" and x.get("op") == "|=" and "TM_RECURSION" in x["rhs"].get("enums", []):
+            if (b.id == site_block.id and i < site_idx) or (b.id != site_block.id and b.id in dom.get(site_block.id, ())):
+                sets = True
+    if not sets:
+        return None
+    dead = guards.edges_given(f, is_mark_test, "nonzero")
+    if not dead:
+        return None
+    if guards.reach_path(f, f.entry, site_block.id, dead) is None:
+        return "TM_RECURSION mark"
+    return None
+
+
+def r10_2(prog, tab):
+    """Call-graph cycles of the compiler.  A recursive call is *reference-following* when the expression it descends
+    into was obtained from the symbol-resolution family (data flow from asn1f_lookup_symbol/asn1f_find_terminal_*/
+    asn1f_class_access into an argument, or into a field of the argument structure); calls that pass a member of the
+    parse tree are bounded by the tree.  Every cycle of unguarded edges that contains a reference-following edge can
+    revisit the same expression for ever on a recursive ASN.1 definition."""
+    from .c05 import var_sources
+    from ..model import CallGraph
+    import types
+    r = Rule("R10.2", "every recursion of the compiler that follows resolved symbol references is broken by the TM_RECURSION mark", floor=8)
+    cg = prog.callgraph()
+    exc = {(x["rule"], x["function"], x["key"]): x["reason"] for x in tab.get("exceptions", [])}
+    edges = collections.defaultdict(lambda: collections.defaultdict(list))   # caller -> callee -> [(site key, line, refdrv, guarded)]
+    ncomp = 0
+    for comp in cg.sccs():
+        cs = set(comp)
+        ncomp += 1
+        for key in comp:
+            f = prog.funcs[key]
+            src = var_sources(f)
+            # fields of local/param structures assigned from a resolution result: arg->expr = parent_expr
+            struct_fed = collections.defaultdict(set)    # var id -> blocks where a resolved expression is stored in it
+            for b, i, e in f.events("assign"):
+                if e.get("field") and "rhs" in e and (e.get("deref") or e.get("base_kind") == "local"):
+                    if any(s_.startswith("call:") and RES_RE.match(s_[5:]) for s_ in src(e["rhs"]["tree"])):
+                        struct_fed[e.get("base_id")].add(b.id)
+            for b, i, e, targets in cg.sites[key]:
+                tg = [t for t in targets if t in cs]
+                if not tg:
+                    continue
+                refdrv = False
+                for a in e.get("args", []):
+                    srcs = src(a.get("tree"))
+                    if any(s_.startswith("call:") and RES_RE.match(s_[5:]) for s_ in srcs):
+                        refdrv = True
+                    for n in walk(a.get("tree")):
+                        if n[0] == "var" and n[1] in struct_fed:
+                            # the store must be able to reach this call
+                            if any(b.id in f.reachable_from([sb]) for sb in struct_fed[n[1]]):
+                                refdrv = True
+                        if n[0] == "call" and RES_RE.match(n[2]):
+                            refdrv = True
+                g = mark_guard(f, b, i, e)
+                sk = e.get("callee") or ("->" + e.get("slot", "") if e.get("slot") else e.get("fp_var", "?").split("@")[0])
+                for t in tg:
+                    edges[key][t].append((sk, e["line"], refdrv, g is not None))
+    # cycles among unguarded edges
+    un = {k: {t for t, lst in d.items() if any(not g for _sk, _l, _r, g in lst)} for k, d in edges.items()}
+    un = {k: v for k, v in un.items() if v}
+    nodes = set(un) | {t for v in un.values() for t in v}
+    sub = types.SimpleNamespace(edges=un, prog=prog)
+    cyc = CallGraph.sccs(sub, nodes)
+    nref = 0
+    for key in sorted(edges):
+        f = prog.funcs[key]
+        for t, lst in sorted(edges[key].items()):
+            for sk, line, refdrv, guarded in lst:
+                if not refdrv:
+                    continue
+                nref += 1
+                if guarded:
+                    r.ok(f, sk, "reference-following recursion into %s is bracketed by the TM_RECURSION mark" % t, line)
+                    continue
+                c = next((c for c in cyc if key in c and t in c), None)
+                if c is None:
+                    r.ok(f, sk, "unmarked reference-following call to %s, but every cycle through it passes a marked edge" % t, line)
+                    continue
+                ek = ("R10.2", f.name, sk)
+                if ek in exc:
+                    r.exc(f, sk, exc[ek], line)
+                else:
+                    r.bad(f, sk, "recursion into %s follows a resolved symbol reference with no TM_RECURSION mark on the cycle {%s}: a "
+                                 "self-referential definition recurses until the stack overflows" % (t, ", ".join(c)), line, witness={"cycle": c})
+    r.note("%d recursive components, %d reference-following recursive call sites" % (ncomp, nref))
+    return r
+
+
 def run(ctx):
     prog = ctx.prog("K")
-    rules = [r10_1(prog)]
+    tab = load_tables("c10")
+    rules = [r10_1(prog), r10_2(prog, tab)]
     from . import c10_link, c10_enum
     rules.append(c10_link.run(ctx))
     rules.append(c10_enum.run(prog))
